@@ -714,11 +714,17 @@ def run_pred(c):
         idx = sorted(set(c["pyth"]))
         if len(idx) < 4:
             raise Skip("not four different points")
+        if not truth and v[5] % 3 == 2:
+            ctr = float(v[0]) * fu + float(v[1]) * fv  # the plane of the circle passes through the origin
         pts = [ctr + rr * (UNIT[i][0] * fu + UNIT[i][1] * fv) / UNIT[i][2] for i in idx]
         how = "on"
         if not truth:
-            how = "off-in-plane" if v[5] % 2 else "off-plane"
-            pts[3] = ctr + (pts[3] - ctr) * 1.25 if how == "off-in-plane" else pts[3] + np.cross(fu, fv) * 0.5
+            how = "off-plane:circle-through-a-plane-through-the-origin" if v[5] % 3 == 2 else ("off-in-plane" if v[5] % 2 else "off-plane")
+            if how.startswith("off-plane:"):
+                # lifted straight off the plane: the central projection from the origin maps the point back onto the circle
+                pts[3] = pts[3] + np.cross(fu, fv) * float(v[6] or 2)
+            else:
+                pts[3] = ctr + (pts[3] - ctr) * 1.25 if how == "off-in-plane" else pts[3] + np.cross(fu, fv) * 0.5
         r, f = call(site + ":" + how, is_cocircular, *[two(P(p)) if i == 0 else P(p, s[i % 2]) for i, p in enumerate(pts)])
         expect(r, f, tag=":" + how)
         return ck.result()
